@@ -136,6 +136,10 @@ def enc_ret(o):
         return [2]
     if r == 'NoScanner':
         return [3]
+    if r == 'Accepted':
+        return [97]
+    if r[0] == 'fed':
+        return [0]
     if r[0] == 'item':
         return [20, 1, int(r[1]), 0]
     if r[0] == 'stop':
@@ -255,7 +259,16 @@ def mon_C04(case, obs):
     params = job_params(case, obs)
     was_ready = set()
     exits = {}             # pid ref -> status given by the history
+    tj = set()
     for n, (e, o) in enumerate(zip(case['events'], obs)):
+        if e[0] == 'terminate_job':
+            tj.add(e[1])
+        for k, j in _apply_jobs(o):
+            if j['ready'] and j['val'] and j['val'][0] == 'terminated' and k not in was_ready \
+                    and not (set(j['wpids']) & tj):
+                out.append(('C04:terminated-without-terminate-job',
+                            'job %d resolved Terminated at event %d although terminate_job was never called on its worker %s'
+                            % (k, n, j['wpids'])))
         if e[0] == 'exit':
             exits.setdefault(e[1], e[2])
         if o['exc'] and e[0] == 'tick' and o['exc'] != 'RestartFreqExceeded':
@@ -406,6 +419,12 @@ def mon_C10(case, obs):
     out = []
     for n, (e, o) in enumerate(zip(case['events'], obs)):
         v, b = o['sem']
+        if e[0] == 'tick' and n and not o['exc']:
+            gone = {w[0] for w in obs[n - 1]['workers']} - {w[0] for w in o['workers']}
+            if v - obs[n - 1]['sem'][0] > len(gone):
+                out.append(('C10:slots-released-without-worker-exit',
+                            'the supervision pass at event %d raised the semaphore from %d to %d although only %d worker(s) were replaced'
+                            % (n, obs[n - 1]['sem'][0], v, len(gone))))
         if e[0] == 'ready' and n and e[1] < len(obs[n - 1]['jobs']) and obs[n - 1]['jobs'][e[1]]['ready'] \
                 and obs[n - 1]['jobs'][e[1]]['kind'] == 'apply' and v > obs[n - 1]['sem'][0]:
             out.append(('C10:slot-released-for-resolved-job',
@@ -614,6 +633,45 @@ def sweep_resize():
     return out[::3]
 
 
+def mon_C01_feed(case, obs):
+    """every task of every queued sequence is sent by the task handler, except the one that
+    could not be sent (and everything after an IOError, which stops the handler)"""
+    out = []
+    pending = []
+    for n, (e, o) in enumerate(zip(case['events'], obs)):
+        if e[0] in ('map', 'imap', 'imapu') and o['ret'] is None and not o['exc']:
+            if e[0] == 'map':
+                pending.append(0 if e[1] == 0 or e[2] <= 0 else (e[1] + e[2] - 1) // e[2])
+            else:
+                pending.append(e[1])
+        if e[0] == 'feed' and not o['exc'] and isinstance(o['ret'], list) and o['ret'][0] == 'fed':
+            total = sum(pending)
+            fail_at = e[1] if len(e) > 1 else None
+            kind = e[2] if len(e) > 2 else None
+            if fail_at is not None and fail_at < total:
+                if kind == 'io':
+                    # the handler stops at the sequence that hit the IOError
+                    acc, expect = 0, fail_at
+                    rest = []
+                    for k, cnt in enumerate(pending):
+                        if acc + cnt > fail_at:
+                            rest = pending[k + 1:]
+                            break
+                        acc += cnt
+                    pending = rest
+                else:
+                    expect = total - 1
+                    pending = []
+            else:
+                expect = total
+                pending = []
+            if o['ret'][1] != expect:
+                out.append(('C01:queued-tasks-not-sent',
+                            'the task handler sent %d of the %d tasks it should have sent at event %d %s'
+                            % (o['ret'][1], expect, n, e)))
+    return out
+
+
 def mon_C01_unresolved(case, obs):
     return [('C01:job-unresolved-past-hard-limit', w) for s_, w in mon_C05_jobs(case, obs) if s_ == 'C05:not-timed-out-by-scan']
 
@@ -698,8 +756,15 @@ def shrink_history(pid, case, sig, rounds=40):
         for _ in range(rounds):
             cands = []
             n = len(cur['events'])
+            removals = [(i, i + 1) for i in range(n)]
+            # whole scan blocks can only go as a unit
             for i in range(n):
-                ev = cur['events'][:i] + cur['events'][i + 1:]
+                if cur['events'][i][0] == 'scan_begin':
+                    j = next((k for k in range(i, n) if cur['events'][k][0] == 'scan_end'), None)
+                    if j is not None:
+                        removals.insert(0, (i, j + 1))
+            for a, b in removals:
+                ev = cur['events'][:a] + cur['events'][b:]
                 # keep scan blocks well formed
                 depth = 0
                 ok = True
@@ -773,8 +838,20 @@ def mon_known_C07(case, obs):
     return out
 
 
+def mon_C07_closed(case, obs):
+    out = []
+    for n, (e, o) in enumerate(zip(case['events'], obs)):
+        if n and e[0] in ('apply', 'map', 'imap', 'imapu') and obs[n - 1]['state'] != 0:
+            if o['exc'] or o['ret'] not in ('Refused', 'Blocked') or len(o['jobs']) != len(obs[n - 1]['jobs']):
+                out.append(('C07:job-accepted-after-close',
+                            '%s offered to a pool in state %d at event %d was not refused (returned %s%s)'
+                            % (e[0], obs[n - 1]['state'], n, o['ret'], ', raised ' + o['exc'] if o['exc'] else '')))
+    return out
+
+
 MONITORS['C01'].append(mon_C01_unresolved)
-MONITORS['C07'] = [mon_known_C07, mon_C01]
+MONITORS['C01'].append(mon_C01_feed)
+MONITORS['C07'] = [mon_known_C07, mon_C01, mon_C07_closed]
 MONITORS['C08'] = [mon_C01]
 
 
